@@ -160,6 +160,14 @@ func c10(r *ev.Run) {
 	}
 	pool = append(pool, resp.NullBulk(), resp.NullArray(), resp.A(), resp.B([]byte{}), resp.S(""), resp.E(""),
 		resp.A(resp.NullBulk(), resp.A(), resp.NullArray(), resp.A(resp.A(resp.A(resp.I(-1))))))
+	// arrays around and beyond any pre-allocation bound of a decoder
+	for _, n := range []int{1023, 1024, 1025, 3000} {
+		arr := make([]resp.Value, n)
+		for i := range arr {
+			arr[i] = resp.BS(fmt.Sprintf("e%d", i))
+		}
+		pool = append(pool, resp.A(arr...), resp.A(resp.A(arr...), resp.I(7)))
+	}
 	for len(pool) < nvals {
 		pool = append(pool, genValue(rnd, 0, true))
 	}
@@ -234,6 +242,21 @@ func c10(r *ev.Run) {
 			if i < 3 {
 				shapes += valueShape(msgs[i])
 			}
+		}
+		if si%40 == 7 {
+			// a long array between ordinary messages: whatever follows it must still be decoded as sent
+			n := 1000 + rnd.Intn(1500)
+			arr := make([]resp.Value, n)
+			for i := range arr {
+				arr[i] = resp.I(int64(i))
+			}
+			big := resp.A(arr...)
+			tailMsg := resp.BS("after-the-long-array")
+			msgs = append(msgs, big, tailMsg)
+			data = resp.Append(data, big)
+			data = resp.Append(data, tailMsg)
+			nm += 2
+			r.Count("streams_with_long_array", 1)
 		}
 		r.Checkpoint(map[string]interface{}{"phase": "stream", "stream_hex": trunc(data), "len": len(data)})
 		type chunking struct {
@@ -418,6 +441,7 @@ func c10(r *ev.Run) {
 	r.Cases(ci, "itoa")
 	r.Count("itoa_inputs", int64(ci))
 	r.Require("streams_with_exhaustive_2way_split", 10)
+	r.Require("streams_with_long_array", 3)
 }
 
 func trunc(b []byte) string {
